@@ -246,9 +246,16 @@ structure Draws where
   rows  : List (List Nat)
   downs : List Nat
 
+/-- `2.0**-min(max_reward+1, 1074)`: the probability of the largest reward.  Powers of two down to the smallest
+subnormal double; written with exact divisions (`2^k` itself is not a double beyond `k = 1023`). -/
+def smallestProb (maxReward : Nat) : Float :=
+  let k := min (maxReward + 1) 1074
+  if k ≤ 1023 then 1.0 / Float.ofNat (2 ^ k)
+  else (1.0 / Float.ofNat (2 ^ 1023)) / Float.ofNat (2 ^ (k - 1023))
+
 /-- the reward formula; `math.floor(-math.log(a + u (1-a))/math.log(2.0))`, clamped -/
 def rewardOf (maxReward : Nat) (u : Float) : Nat :=
-  let a : Float := 1.0 / Float.ofNat (2 ^ (maxReward + 1))
+  let a : Float := smallestProb maxReward
   let v := Float.floor (-(Float.log (a + u * (1.0 - a))) / Float.log 2.0)
   min maxReward v.toUInt64.toNat
 
